@@ -196,8 +196,14 @@ def main(argv):
 
     held = [o for o in ctx.obligations if o["status"] == "held"]
     rules = sorted(set(o["rule"] for o in ctx.obligations))
+    spread = []
+    seen_rules = set()
+    for o in held:
+        if o["rule"] not in seen_rules:
+            seen_rules.add(o["rule"])
+            spread.append(o)
     samples = [{"rule": o["rule"], "function": o["function"], "construct": o["construct"], "obligation": o["what"],
-                "site": o["site"], "status": o["status"]} for o in (violations + known_hits + held)[:12]]
+                "site": o["site"], "status": o["status"]} for o in (violations + known_hits + spread + held)[:16]]
     distinct = len(set(o["key"] for o in ctx.obligations))
     mod = importlib.import_module("rules.%s" % prop.lower())
     coverage = {
